@@ -99,7 +99,6 @@ class DAGRunConcurrentManager(DAGRunManagerLike):
     _lock_manager: DAGConcurrentManagerLock = field(init=False)
     _memorization_store: t.Dict[t.Any, t.Any] = field(default_factory=dict)
     _coro_tasks: t.Set[asyncio.Task] = field(default_factory=set)
-    _started_oneof_children: t.Set[NodeId] = field(default_factory=set)
     _additional_data: t.Dict[NodeId, t.Any] = field(default_factory=dict)
     _alias_run_method: str = 'run'
 
@@ -265,14 +264,12 @@ class DAGRunConcurrentManager(DAGRunManagerLike):
             Args:
                 u -  Node
             """
+            # A OneOf candidate is a part of its own subgraph only. If it were visible in the other subgraphs
+            # after its start, they would execute its (possibly failed) nodes or take its contained errors for theirs.
             return (
                 not self.dag.graph.nodes[u].get(NodeField.is_oneof_child)
-                or u in self._started_oneof_children
+                or (is_oneof and u == dest)
             )
-
-        if is_oneof:
-            # The graph is shared between all runs of the chart, so the state of the run must not be written to it
-            self._started_oneof_children.add(dest)
 
         return get_connected_subgraph(
             dag=nx.subgraph_view(self.dag.graph, filter_edge=_filter, filter_node=_filter_node),
